@@ -213,7 +213,7 @@ fn refuse<A: Sx>(out: &mut Out) {
     let bits = A::BITS as usize;
     let fit = 64 / bits;
     let m = alphabet::<A>().len();
-    for n in [fit + 1, fit + 2, 2 * fit, 2 * fit + 1] {
+    for n in [fit + 1, fit + 2, 2 * fit, 2 * fit + 1, 4 * fit, 8 * fit + 1, 64 * fit + 3] {
         for s in 0..noff(bits) {
             out.units += 1;
             let content = syms::<A>(&bg(n, m, 70 + s as u64, out.seed));
@@ -225,6 +225,41 @@ fn refuse<A: Sx>(out: &mut Out) {
                 (
                     format!("{cn}/usize-try_from-slice/long-slice-not-refused"),
                     format!("usize::try_from(slice of {n} symbols = {} bits at offset {s}) = {:?}, expected Err(SequenceTooLong)", n * bits, got),
+                )
+            });
+            // the infallible conversions have no error to return: they must not hand back a (truncated) integer
+            out.stage = "usize::from(long owned Seq)";
+            let got = out.catch(|| usize::from(pl.view().to_owned()));
+            out.check(got.is_err(), || {
+                (
+                    format!("{cn}/usize-from-seq/long-sequence-not-refused"),
+                    format!("usize::from(owned copy of a slice of {n} symbols = {} bits) returned {:x?} instead of refusing", n * bits, got),
+                )
+            });
+            out.stage = "u8::from(&long slice)";
+            let got = out.catch(|| u8::from(pl.view()));
+            out.check(got.is_err(), || {
+                (
+                    format!("{cn}/u8-from-slice/long-slice-not-refused"),
+                    format!("u8::from(slice of {n} symbols = {} bits at offset {s}) returned {:x?} instead of refusing", n * bits, got),
+                )
+            });
+        }
+    }
+    // more than a byte but at most a word: u8::from has to refuse, too
+    for n in [8 / bits + 1, 8 / bits + 2, 16 / bits, fit] {
+        if n * bits <= 8 {
+            continue;
+        }
+        for s in 0..noff(bits) {
+            let content = syms::<A>(&bg(n, m, 72 + s as u64, out.seed));
+            let pl = place(&content, s, 0);
+            out.stage = "u8::from(&slice longer than a byte)";
+            let got = out.catch(|| u8::from(pl.view()));
+            out.check(got.is_err(), || {
+                (
+                    format!("{cn}/u8-from-slice/long-slice-not-refused"),
+                    format!("u8::from(slice of {n} symbols = {} bits at offset {s}) returned {:x?} instead of refusing", n * bits, got),
                 )
             });
         }
